@@ -2,6 +2,8 @@
 // usage: c14 <mode> <seed0> <nruns>
 //   mode alloc32 | alloc16 : random allocate/deallocate programs on 2-4 threads, atomic-level trace
 //                            (replayed in lock-step by lean/Drivers/C14.lean) + ownership oracle
+//   mode boxhot            : as box, but 3-4 threads in tight emplace/take/finish cycles + stale ids of the same slot
+//   mode big16             : IdAllocator<uint16_t> with > 65408 ids: for_each / end / reuse at the top of the range
 //   mode box               : DepositBox emplace / concurrent take / finish / stale-id take programs, atomic-level
 //                            trace (replayed in lock-step against Babylon/IdAlloc/Box.lean) + single-taker oracles
 //   mode threadid          : ThreadId across real thread birth/death waves, oracle only
@@ -141,7 +143,10 @@ struct BoxPub {
   bool known_taken = false;  // a successful take has already returned
 };
 
-void run_box(uint64_t seed) {
+// hot = true (`box hot`): 3-4 threads in tight emplace / take / finish cycles on very few slots, so that
+// allocate()'s CAS is retried while another thread completes a whole round of the slot just popped; every
+// thread re-tries the stale ids of EARLIER ROUNDS OF THE SAME SLOT right after each emplace returns.
+void run_box(uint64_t seed, bool hot) {
   constexpr unsigned NSLOT = 64;
   DepositBox<std::string> box;
   box._slot_id_allocator._free_next_value.ensure(NSLOT - 1);
@@ -153,7 +158,7 @@ void run_box(uint64_t seed) {
   vrt_name(&alloc._free_next_value.ensure(0), NSLOT * sizeof(uint32_t), "next");
   for (unsigned i = 0; i < NSLOT; ++i) vrt_namef(&box._slots.ensure(i).version, sizeof(uint32_t), "ver%u", i);
   Rng rng(seed);
-  int nthreads = 2 + (int)rng.below(3);
+  int nthreads = hot ? 3 + (int)rng.below(2) : 2 + (int)rng.below(3);
   std::vector<BoxPub> published;                     // shared bookkeeping (plain accesses are not scheduling points)
   std::vector<std::vector<size_t>> held(nthreads + 1);  // per thread: indices into published of the ids it took
   unsigned next_token = 1;
@@ -168,6 +173,9 @@ void run_box(uint64_t seed) {
       vrt_event("ORACLE out-of-range slot %u", (unsigned)id.value);
       return;
     }
+    for (auto& q : published)
+      if (q.id.value == id.value && q.id.version == id.version)
+        vrt_event("ORACLE id %u@%u issued twice (items %u and %u)", (unsigned)id.value, (unsigned)id.version, q.token, x);
     BoxPub p;
     p.id = id;
     p.token = x;
@@ -237,7 +245,7 @@ void run_box(uint64_t seed) {
   };
 
   vrt_begin(seed);
-  printf("RUN %lu W=32 mode=box threads=%d\n", (unsigned long)seed, nthreads);
+  printf("RUN %lu W=32 mode=box threads=%d%s\n", (unsigned long)seed, nthreads, hot ? " variant=hot" : "");
   // sequential prefix: a few emplace / take / finish rounds so that the free list, the versions and the
   // set of stale ids are non-trivial when the threads start; the main thread may keep some items held
   {
@@ -254,6 +262,25 @@ void run_box(uint64_t seed) {
     ts.emplace_back([&, t, tseed] {
       Rng r(tseed);
       auto& mine = held[t];
+      if (hot) {
+        int cycles = 4 + (int)r.below(6);
+        for (int i = 0; i < cycles; ++i) {
+          do_emplace();
+          size_t own = published.size() - 1;   // may already be somebody else's newer id: fine
+          // stale ids of earlier rounds of the slot just issued (and of any reused slot) must not match
+          unsigned slot = published[own].id.value;
+          int tried = 0;
+          for (size_t k = published.size(); k-- > 0 && tried < 2;)
+            if (published[k].known_taken && published[k].id.value == slot) {
+              do_take(mine, k);
+              ++tried;
+            }
+          if (r.below(100) < 80) do_take(mine, r.below(100) < 70 ? own : pick(r));
+          if (!mine.empty() && r.below(100) < 85) do_finish(mine, r.below(mine.size()));
+        }
+        while (!mine.empty()) do_finish(mine, r.below(mine.size()));
+        return;
+      }
       int nops = 3 + (int)r.below(6);
       for (int i = 0; i < nops; ++i) {
         unsigned dice = (unsigned)r.below(100);
@@ -336,7 +363,31 @@ void run_boxacc(uint64_t seed) {
         if (&o != &kv && o.first.value == kv.first.value) vrt_event("ORACLE slot %u handed out by emplace while an earlier emplace still owns it", kv.first.value);
     }
   };
-  for (int r = 0; r < rounds; ++r) {
+  // the slot allocator's free list, walked through the private members: no slot twice, no cycle, no slot that
+  // is still owned (a slot released twice shows up here before a later emplace trips over it)
+  bool corrupt = false;
+  auto check_freelist = [&](const char* when, const std::vector<unsigned>& owned) {
+    auto& al = box._slot_id_allocator;
+    unsigned end = al.end();
+    std::vector<char> seen(end + 1, 0);
+    unsigned cur = al._free_head.value, steps = 0;
+    while (cur != 0xffffffffu) {
+      if (cur >= end || seen[cur] || ++steps > end) {
+        vrt_event("ORACLE free list of the slot allocator is corrupt at slot %u (released twice / cycle) (%s)", cur, when);
+        corrupt = true;
+        return;
+      }
+      seen[cur] = 1;
+      for (unsigned o : owned)
+        if (o == cur) {
+          vrt_event("ORACLE slot %u is in the free list while still owned (%s)", cur, when);
+          corrupt = true;
+          return;
+        }
+      cur = al._free_next_value[cur].load(std::memory_order_relaxed);
+    }
+  };
+  for (int r = 0; r < rounds && !corrupt; ++r) {
     int nnew = 1 + (int)rng.below(4);
     for (int i = 0; i < nnew; ++i) {
       char buf[48];
@@ -368,12 +419,154 @@ void run_boxacc(uint64_t seed) {
     for (size_t k = 0; k < victims.size(); ++k)
       if (wins[k] != 1) vrt_event("ORACLE %d accessors obtained the item of one emplace", wins[k]);
     check_live("after accessors died");
+    // Accessors kept in a vector: self move-assignment and the in-place compaction idiom
+    // `v[w++] = std::move(v[r])` (a self move while w == r), some accessors empty, some holding; the kept
+    // ones must still see their item, the dropped ones release their slot exactly once, and emplace
+    // calls made afterwards must never get a slot that is still owned
+    {
+      std::vector<Box::Accessor> v;
+      std::vector<std::string> expect;          // "" = empty accessor
+      int nhold = (int)rng.below(live.size() + 1);
+      for (int i = 0; i < nhold; ++i) {
+        if (rng.below(3) == 0) { v.emplace_back(); expect.push_back(""); }
+        auto kv = live.front();
+        live.erase(live.begin());
+        v.push_back(box.take(kv.first));
+        expect.push_back(kv.second);
+        if (!v.back() || *v.back() != kv.second) vrt_event("ORACLE take of a live item through an accessor failed");
+      }
+      if (rng.below(2)) { v.emplace_back(); expect.push_back(""); }
+      auto check_vec = [&](const char* when) {
+        for (size_t k = 0; k < v.size(); ++k) {
+          if (expect[k].empty()) {
+            if (v[k]) vrt_event("ORACLE empty accessor became valid (%s)", when);
+          } else if (!v[k]) {
+            vrt_event("ORACLE holding accessor lost its item (%s)", when);
+          } else if (*v[k] != expect[k]) {
+            vrt_event("ORACLE accessor sees wrong item (%s)", when);
+          }
+        }
+      };
+      for (size_t k = 0; k < v.size(); ++k)
+        if (rng.below(2)) {
+          auto& self = v[k];
+          v[k] = std::move(self);                 // self move-assignment
+        }
+      check_vec("after self move-assignment");
+      size_t w = 0;
+      for (size_t rd = 0; rd < v.size(); ++rd) {
+        bool keep = rng.below(100) < 60;
+        if (keep) {
+          v[w] = std::move(v[rd]);                // w == rd for the leading kept run
+          expect[w] = expect[rd];
+          ++w;
+        }
+      }
+      v.resize(w);                                // dropped accessors release their slots here
+      expect.resize(w);
+      check_vec("after compaction");
+      auto owned_now = [&] {
+        std::vector<unsigned> o;
+        for (auto& kv : live) o.push_back(kv.first.value);
+        for (auto& a : v)
+          if (a) o.push_back(a._id.value);
+        return o;
+      };
+      check_freelist("after compaction", owned_now());
+      if (corrupt) {
+        for (auto& a : v) a._object = nullptr;    // do not release anything again: the run stops here
+        break;
+      }
+      int extra = 2 + (int)rng.below(4) + nhold;
+      for (int i = 0; i < extra; ++i) {
+        char buf[48];
+        snprintf(buf, sizeof buf, "cmp-%lu-%d-%d", (unsigned long)seed, r, i);
+        auto id = box.emplace(std::string(buf));
+        for (size_t k = 0; k < v.size(); ++k)
+          if (v[k] && v[k]._id.value == id.value) vrt_event("ORACLE slot %u handed out by emplace while an accessor still holds it", id.value);
+        live.emplace_back(id, buf);
+        check_live("emplace after compaction");
+      }
+      check_vec("after later emplaces");
+      v.clear();                                  // the kept accessors release their slots
+      check_freelist("after the kept accessors were released", owned_now());
+      if (corrupt) break;
+      for (int i = 0; i < 3; ++i) {
+        char buf[48];
+        snprintf(buf, sizeof buf, "end-%lu-%d-%d", (unsigned long)seed, r, i);
+        live.emplace_back(box.emplace(std::string(buf)), buf);
+        check_live("emplace after accessors released");
+      }
+    }
   }
-  // drain
-  for (auto& kv : live) {
-    auto acc = box.take(kv.first);
-    if (!acc || *acc != kv.second) vrt_event("ORACLE final take of a live item failed");
+  // drain (not after a corrupted free list: the singleton is unusable, the process ends after this run)
+  if (!corrupt)
+    for (auto& kv : live) {
+      auto acc = box.take(kv.first);
+      if (!acc || *acc != kv.second) vrt_event("ORACLE final take of a live item failed");
+    }
+  vrt_event("stats steps %lu switches %lu stale %lu", vrt_steps(), vrt_switches(), vrt_stale_reads());
+  vrt_end();
+  vrt_dump(stdout);
+  if (corrupt) exit(0);   // the box singleton cannot serve further runs of this process
+}
+
+// IdAllocator<uint16_t> at the top of its documented range (ThreadId: "at most 65534 live threads"): more than
+// 65408 ids minted sequentially (the link vector's capacity reaches 65536 = 2^16), then for_each at quiescence
+// must report exactly the live ids: all of them, then a few survivors (block and range boundaries), then after
+// some are reused.  Single thread inside VRT (no interleaving needed), oracle only.
+void run_big16(uint64_t seed) {
+  IdAllocator<uint16_t> alloc;
+  vrt_unname_all();
+  Rng rng(seed);
+  vrt_begin(seed);
+  unsigned total = 65409 + (unsigned)rng.below(65534 - 65409 + 1);
+  if (seed % 3 == 0) total = 65534;
+  printf("RUN %lu W=16 mode=big16 total=%u\n", (unsigned long)seed, total);
+  std::vector<char> live(65536, 0);
+  auto check = [&](const char* when) {
+    std::vector<char> rep(65536, 0);
+    unsigned nrep = 0, nlive = 0, bad = 0;
+    alloc.for_each([&](uint16_t b, uint16_t e) {
+      for (unsigned v = b; v < e; ++v) {
+        if (rep[v]) ++bad;
+        rep[v] = 1;
+        ++nrep;
+      }
+    });
+    for (unsigned v = 0; v < 65536; ++v) {
+      nlive += live[v];
+      if (rep[v] != live[v]) ++bad;
+    }
+    if (bad) vrt_event("ORACLE for_each reports %u ids, %u are live (%u wrong; end=%u, %s)", nrep, nlive, bad, (unsigned)alloc.end(), when);
+  };
+  std::vector<VersionedValue<uint16_t>> ids;
+  for (unsigned i = 0; i < total; ++i) {
+    auto id = alloc.allocate();
+    if (live[id.value]) vrt_event("ORACLE dup id %u minted twice", (unsigned)id.value);
+    live[id.value] = 1;
+    ids.push_back(id);
+    if (i == 65407 || i == 65408 || i == 300) check("while growing");
   }
+  if (alloc.end() != total) vrt_event("ORACLE end() = %u after %u allocations", (unsigned)alloc.end(), total);
+  check("all live");
+  std::vector<char> keep(65536, 0);
+  for (unsigned v : {0u, 1u, 127u, 128u, 65407u, 65408u, total - 1}) keep[v] = 1;
+  for (int i = 0; i < 12; ++i) keep[rng.below(total)] = 1;
+  if (rng.below(3) == 0) std::fill(keep.begin(), keep.end(), 0);
+  for (auto id : ids)
+    if (!keep[id.value]) {
+      live[id.value] = 0;
+      alloc.deallocate(id);
+    }
+  check("survivors");
+  for (int i = 0; i < 40; ++i) {
+    auto id = alloc.allocate();
+    if (id.value >= total) vrt_event("ORACLE minted new id %u although freed ids exist", (unsigned)id.value);
+    if (live[id.value]) vrt_event("ORACLE dup id %u handed out while live", (unsigned)id.value);
+    live[id.value] = 1;
+  }
+  check("after reuse");
   vrt_event("stats steps %lu switches %lu stale %lu", vrt_steps(), vrt_switches(), vrt_stale_reads());
   vrt_end();
   vrt_dump(stdout);
@@ -387,10 +580,12 @@ int main(int argc, char** argv) {
     uint64_t seed = seed0 + i;
     if (mode == "alloc32") run_alloc<uint32_t>(seed, "alloc32");
     else if (mode == "alloc16") run_alloc<uint16_t>(seed, "alloc16");
-    else if (mode == "box") run_box(seed);
+    else if (mode == "box") run_box(seed, false);
+    else if (mode == "boxhot") run_box(seed, true);
     else if (mode == "threadid") run_threadid<ThreadId>(seed, "threadid");
     else if (mode == "leakyid") run_threadid<LeakyThreadId>(seed, "leakyid");
     else if (mode == "boxacc") run_boxacc(seed);
+    else if (mode == "big16") run_big16(seed);
     else return 2;
   }
   return 0;
